@@ -152,7 +152,7 @@ func (g *gctx) genI(d int) *gnode {
 		return g.lit()
 	case 16:
 		g.use("reduce")
-		return gn(pos("receiver", g.genA(d-1)), "$(", pos("chain-argument", g.genI(d-1)), "){|acc, x| acc + t(x)}")
+		return gn(pos("receiver", g.genA(d-1)), "$(", pos("chain-argument", g.genI(d-1)), "){|acc, x| acc + t(x) + ", pos("chain-body", gn("0")), "}")
 	default:
 		g.use("prefix")
 		return gn("(-", pos("operand", g.genI(d-1)), ")")
@@ -262,7 +262,7 @@ func (g *gctx) genA(d int) *gnode {
 	case 5:
 		g.use("list-chain")
 		ch := []string{"@", "@", "=@", "~@", "&@"}[g.r.Intn(5)]
-		return gn(pos("receiver", g.genA(d-1)), ch+"{|x| t(x) * 2}")
+		return gn(pos("receiver", g.genA(d-1)), ch+"{|x| t(x) * ", pos("chain-body", gn("2")), "}")
 	case 6:
 		g.use("list-chain-prop")
 		return gn(pos("receiver", g.genA(d-1)), "@+(", pos("argument", g.genI(d-1)), ")")
@@ -373,6 +373,28 @@ func (g *gctx) genStmt(d int, indent string) *gnode {
 	}
 	if g.bias == 'T' && g.r.Intn(2) == 0 {
 		return g.genIterStmt(d, indent)
+	}
+	if g.r.Intn(16) == 0 {
+		// a call with many arguments: two-digit argument variables, \0 and surplus arguments
+		g.use("wide-call")
+		n := 8 + g.r.Intn(6)
+		args := gn()
+		for i := 0; i < n; i++ {
+			if i > 0 {
+				args.parts = append(args.parts, ", ")
+			}
+			args.parts = append(args.parts, pos("argument", gn(fmt.Sprint(10+i))))
+		}
+		if g.r.Bool() {
+			return gn(indent, "{|a, b| [\\1, \\2, \\8, \\9, \\10, \\11, \\12, \\0.len, a, b].p}(", args, ")\n")
+		}
+		return gn(indent, "{wide: m{|p| [\\1.ka, \\2, \\9, \\10, \\11, p, \\0.len].p}, ka: 7}.wide(", args, ")\n")
+	}
+	if g.r.Intn(14) == 0 {
+		// lonely chains: the receiver may be nil; arguments are evaluated all the same
+		g.use("lonely-chain")
+		recv := []string{"nil", "[1][3]", "5", "[4, 5][0]", "{ka: 1}['kz]"}[g.r.Intn(5)]
+		return gn(indent, recv, "&.+(", pos("argument", gn("t(", pos("argument", g.genI(1)), ")")), ").p\n")
 	}
 	switch g.r.Intn(20) {
 	case 0, 1, 2:
@@ -509,6 +531,12 @@ func (g *gctx) genIterStmt(d int, indent string) *gnode {
 		}[g.r.Intn(4)]
 		return gn(indent, "gen := <{|i, step: 1|\n", indent, "  ", body, indent, "}>\n")
 	}
+	if _, ok := g.pickVar('H'); !ok && g.r.Intn(3) == 0 {
+		// a literal without parameters, driven by argument variables
+		g.define("gen0", 'H', 0)
+		lim := 3 + g.r.Intn(4)
+		return gn(indent, fmt.Sprintf("gen0 := <{yield \\ if \\ < %d; recur(\\ + 1)}>\n", lim))
+	}
 	its := []gvar{}
 	for _, v := range g.vars {
 		if v.typ == 'T' {
@@ -519,13 +547,19 @@ func (g *gctx) genIterStmt(d int, indent string) *gnode {
 		name := g.freshName('T')
 		g.define(name, 'T', 0)
 		src := "gen"
+		if _, ok := g.pickVar('H'); ok && g.r.Bool() {
+			src = "gen0"
+		}
 		if len(its) > 0 && g.r.Intn(3) == 0 {
 			src = its[g.r.Intn(len(its))].name // an iterator made from an iterator
 		}
 		return gn(indent, name, " := ", src, ".new(", pos("argument", g.genI(1)), ")\n")
 	}
 	it := its[g.r.Intn(len(its))]
-	switch g.r.Intn(6) {
+	switch g.r.Intn(7) {
+	case 6:
+		g.use("iterator-chain")
+		return gn(indent, it.name, "@{|x| x}.p\n", indent, it.name, "@{|x| x}.p\n")
 	case 0, 1, 2:
 		return gn(indent, it.name, ".next.p\n")
 	case 3:
